@@ -82,8 +82,11 @@ def entry_points():
             'comp': rp.Comp([rp.G(1), rp.TG(1), rp.LN(1)]),
             'cov': rp.Cov(rp.G(1), 1),
             'compcov': rp.Comp([rp.G(1), rp.Cov(rp.G(1), 1), rp.Cov(rp.LN(1), 1)])}
+    # a heterogeneous sub-model holding several individuals inside a composition
+    pops['compH'] = rp.Comp([rp.G(1), rp.H(1)])
+    pops['compH2'] = rp.Comp([rp.H(1), rp.LN(1), rp.H(1)])
     for k, spec in pops.items():
-        n_ids = 3 if k == 'H' else 2
+        n_ids = 3 if 'H' in k else 2
         top = popvals.top_values(spec, n_ids, 0)
         cov = popvals.covariates(spec, 2, 0)
 
@@ -134,6 +137,52 @@ def entry_points():
         return chi.PriorPredictiveModel(_pred(1), pri).sample(
             TIMES, n_samples=2, seed=seed)['Value'].to_numpy(dtype=float)
     eps['priorpred'] = priorpred
+
+    def by_sample(df):
+        # cells x samples (last axis = sample ID)
+        ids = sorted(set(df['ID']))
+        return np.stack([df[df['ID'] == k]['Value'].to_numpy(dtype=float)
+                         for k in ids], axis=-1)
+
+    # averaged predictive models around a two-output model, three samples
+    def priorpred2(seed):
+        pri = pints.ComposedLogPrior(
+            pints.UniformLogPrior(0.5, 1.5), pints.UniformLogPrior(0.2, 0.8),
+            pints.UniformLogPrior(0.1, 0.3), pints.UniformLogPrior(0.1, 0.2))
+        return by_sample(chi.PriorPredictiveModel(_pred(2), pri).sample(
+            TIMES, n_samples=3, seed=seed))
+    eps['priorpred2'] = priorpred2
+
+    def postpred2(seed):
+        ds = _posterior_dataset(['p0', 'p1', 'o0 Sigma', 'o1 Sigma log'],
+                                n_chains=3)
+        return by_sample(chi.PosteriorPredictiveModel(_pred(2), ds).sample(
+            TIMES, n_samples=3, individual='a', seed=seed))
+    eps['postpred2'] = postpred2
+
+    def pam2(seed):
+        names = ['p0', 'p1', 'o0 Sigma', 'o1 Sigma log']
+        models = [chi.PosteriorPredictiveModel(_pred(2), _posterior_dataset(
+            names, n_chains=3)), chi.PosteriorPredictiveModel(
+                _pred(2), _posterior_dataset(names, n_draws=2))]
+        return by_sample(chi.PAMPredictiveModel(models, [0.5, 0.5]).sample(
+            TIMES, n_samples=4, individual='b', seed=seed))
+    eps['pam2'] = pam2
+
+    # prior predictive models around population predictive models of every kind
+    for k, spec in (('G', rp.Comp([rp.G(1), rp.P(2)])),
+                    ('LNnc', rp.Comp([rp.LN(1, False), rp.P(2)])),
+                    ('TG', rp.Comp([rp.TG(1), rp.LN(1), rp.P(1)])),
+                    ('TG2', rp.Comp([rp.P(1), rp.TG(2)]))):
+        def priorpop(seed, spec=spec):
+            nt = rp.n_top(spec, 1)
+            pri = pints.ComposedLogPrior(*[
+                pints.UniformLogPrior(0.3 + 0.05 * i, 0.9 + 0.05 * i)
+                for i in range(nt)])
+            pm = chi.PopulationPredictiveModel(_pred(1), popbuild.build(spec, None))
+            return by_sample(chi.PriorPredictiveModel(pm, pri).sample(
+                TIMES, n_samples=3, seed=seed))
+        eps['priorpop:' + k] = priorpop
 
     def postpred(seed):
         ds = _posterior_dataset(['p0', 'p1', 'Sigma'])
@@ -206,8 +255,13 @@ DISTINCT_CELLS = {'init:posterior', 'init:hierarchical', 'init:filter',
                   'poppred', 'poppred_rep'}
 GENERATOR_OK = {'postpred_shared_a', 'postpred_shared_b', 'pop:G3same', 'pop:LN3same', 'pop:TG3same', 'pop:redTG2',
                 'pred1rep', 'pred2rep', 'poppred_rep', 'err:G', 'err:M', 'err:CM', 'err:LN', 'pop:G', 'pop:LNnc', 'pop:TG',
-                'pop:H', 'pop:comp', 'pop:cov', 'pop:compcov', 'pred1', 'pred2', 'poppred',
-                'postpred', 'pam', 'priorpred'}
+                'pop:H', 'pop:comp', 'pop:compH', 'pop:compH2', 'pop:cov', 'pop:compcov', 'pred1', 'pred2', 'poppred',
+                'postpred', 'pam', 'priorpred', 'postpred2', 'pam2'}
+
+
+# entry points that draw a parameter set per sample first: any base variate stays
+# within ONE sample (last axis), noise variates within one cell
+SAMPLE_CONFINED = {'priorpred2', 'postpred2', 'pam2'}
 
 
 def _arr(x):
@@ -313,18 +367,34 @@ def w_streams(case):
     shared = {}
     ntr = 1
     pop_draws = e.startswith('poppred')
+    confined = e in SAMPLE_CONFINED
+    n_of = dict(seam.n_of)
     for (st, ix, kind) in variates:
-        if kind == 'i':
+        if e.startswith('init:') and st.startswith('global'):
+            # (a population-level prior draw legitimately reaches the individuals
+            # drawn at it)
             continue
-        base = seam.script(st, ix, kind)
-        with Seam(Script({(st, ix): base + (0.37 if kind == 'z' else 0.041)})):
+        if kind == 'i' and (not confined or e == 'pam2'):
+            # (for the averaged model another member choice re-distributes the
+            # samples over the members and shifts every later draw of the stream)
+            continue
+        if kind == 'i':
+            # another answer of a categorical draw (a posterior row, a member model)
+            n_alt = n_of.get((st, ix)) or 1
+            if n_alt < 2:
+                continue
+            dev = (seam.script(st, ix, kind, n_alt) + 1) % n_alt
+        else:
+            base = seam.script(st, ix, kind)
+            dev = base + (0.37 if kind == 'z' else 0.041)
+        with Seam(Script({(st, ix): dev})):
             S1 = _arr(eps[e](sd))
         ntr += 1
         if S1.shape != S0.shape:
             continue
         changed = [tuple(int(a) for a in c) for c in np.argwhere(
             ~np.isclose(S1, S0, rtol=0, atol=1e-12))]
-        if pop_draws:
+        if pop_draws or (confined and (kind == 'i' or st.startswith('global'))):
             # an individual's parameter draw legitimately reaches all times of that
             # individual -- but never two individuals (last axis = sample)
             if len(set(c[-1] for c in changed)) > 1:
@@ -448,7 +518,8 @@ def build(tier, seed):
     # predictive model and the model samplers is required here (C15 decides the rest)
     # (seed 0 is in the alphabet: a falsy seed must behave like any other seed)
     streams = [{'entry': e, 'seed': sd} for e in names
-               if e.startswith(('err:', 'pop:', 'pred', 'poppred'))
+               if e.startswith(('err:', 'pop:', 'pred', 'poppred', 'init:'))
+               or e in SAMPLE_CONFINED
                for sd in (7, 0)]
     runs = []
     alphabet = (1, 2, 3, 5)
